@@ -373,7 +373,7 @@ class Ctr:
 
     def guard(self):
         self.g += 1
-        return ["g1", "g2", "g3", "a > b", "a%2 == 0", "b > 3"][(self.g - 1) % 6]
+        return ["g1", "g2", "g3", "a > b", "a&1 == 0", "b > 3"][(self.g - 1) % 6]
 
     def var(self):
         self.v += 1
@@ -455,7 +455,7 @@ def concretize(abs_list, ctr, loopvars):
             out.append(("decl", v, "0"))
             out.append(("for", None, None, None, body))
         elif k == "SW":
-            tag = ["a%3", "b%2", "n"][ctr.g % 3]
+            tag = ["a&3", "b&1", "n"][ctr.g % 3]
             ctr.g += 1
             cases = [("0", concretize(s[1], ctr, loopvars))]
             default = concretize(s[2], ctr, loopvars) if s[2] is not None else None
@@ -566,7 +566,7 @@ class Sampler:
             v = ctr.var()
             return [("decl", v, "0"), ("for", None, None, None, [("inc", v), ("if", "%s > n" % v, [("break",)], None)] + sub(True, False, loopvars + [v]))]
         if k in ("SW", "SWD"):
-            tag = rng.choice(["a%3", "b%2", "n", "a%2"])
+            tag = rng.choice(["a&3", "b&1", "n", "a&1"])
             ncases = rng.randint(1, 2)
             cases = [(str(i), sub(in_loop, True)) for i in range(ncases)]
             default = sub(in_loop, True) if k == "SWD" else None
@@ -731,7 +731,7 @@ def inject_panic(body, rng, ctr):
     ctr.y += 1
     site = rng.choice(PANIC_SITES)(ctr.y)
     if rng.random() < 0.5:
-        site = ("if", rng.choice(["g3", "a > b", "b%2 == 0"]), [site], None)
+        site = ("if", rng.choice(["g3", "a > b", "b&1 == 0"]), [site], None)
     lst.insert(i, site)
     return body
 
@@ -895,3 +895,196 @@ def eq_driver(name, name2, K, nlo=-1, nhi=3):
 	rt.SetLog(0)
 	rt.AssertSameLogs(0, 1, 500)
 }""" % {"name": name, "name2": name2, "K": K, "nlo": nlo, "nhi": nhi}
+
+
+# ---------------------------------------------------------------------------------------------
+# C03: declarations, shadowing, closures
+
+
+class ScopeSampler:
+    NAMES = ["x", "y"]
+
+    def __init__(self, rng, max_depth=4):
+        self.rng = rng
+        self.max_depth = max_depth
+        self.c = 0
+        self.nclos = 0
+        self.nloop = 0
+
+    def k(self):
+        self.c += 1
+        return self.c
+
+    def writable(self, scopes):
+        ro = set()
+        out = []
+        # innermost declaration of a name decides
+        seen = set()
+        for sc in reversed(scopes):
+            for v in sc["vars"]:
+                if v in seen:
+                    continue
+                seen.add(v)
+                if v not in sc.get("ro", ()) and v in self.NAMES:
+                    out.append(v)
+        return out
+
+    def visible(self, scopes):
+        vs = []
+        for sc in scopes:
+            for v in sc["vars"]:
+                if v not in vs:
+                    vs.append(v)
+        return vs
+
+    def expr(self, scopes):
+        vs = self.visible(scopes) + ["a", "b"]
+        e = self.rng.choice(vs)
+        if self.rng.random() < 0.4:
+            e = "%s + %s" % (e, self.rng.choice(vs))
+        return "%s + %d" % (e, self.k())
+
+    def closures(self, scopes):
+        cs = []
+        for sc in scopes:
+            cs += sc["clos"]
+        return cs
+
+    def body(self, budget, scopes, in_loop, depth, pre=None):
+        out = []
+        scopes = scopes + [{"vars": list(pre or []), "clos": [], "ro": list(pre or [])}]
+        while budget[0] > 0:
+            ss = self.stmt(budget, scopes, in_loop, depth)
+            out.extend(ss)
+            if ss and ss[-1][0] in ("break", "continue", "return"):
+                break
+            if self.rng.random() < 0.15:
+                break
+        # every declared variable / closure of this scope must be used
+        for v in scopes[-1]["vars"]:
+            out_has = any(v in repr(s) for s in out[1:])
+            out.append(("effv", 5, v))
+        for cname, kind in scopes[-1]["clos"]:
+            out.append(("raw", "_ = %s" % cname))
+        return out
+
+    def stmt(self, budget, scopes, in_loop, depth):
+        rng = self.rng
+        budget[0] -= 1
+        vis = self.visible(scopes)
+        kinds = ["DECL"] * 4 + ["Y"] * 5
+        wr = self.writable(scopes)
+        if wr:
+            kinds += ["UPD"] * 3
+        if vis:
+            kinds += ["CLOS"] * 3
+        if self.closures(scopes):
+            kinds += ["CALL"] * 4
+        if depth < self.max_depth and budget[0] >= 2:
+            kinds += ["IF"] * 2 + ["IFE", "BLK", "BLK", "FOR", "FORSH", "SWINIT", "TSW", "RANGE", "WHILE"]
+        if in_loop:
+            kinds += ["BRK", "CNT"]
+        k = rng.choice(kinds)
+        top = scopes[-1]
+        if k == "DECL":
+            cand = [n for n in self.NAMES if n not in top["vars"]]
+            if not cand:
+                k = "UPD" if wr else "Y"
+            else:
+                n = rng.choice(cand)
+                e = self.expr(scopes)
+                top["vars"].append(n)
+                return [("decl", n, e)]
+        if k == "UPD":
+            n = rng.choice(wr)
+            return [("assign", n, self.expr(scopes))]
+        if k == "Y":
+            return [("yield", self.expr(scopes))]
+        if k == "CLOS":
+            self.nclos += 1
+            n = rng.choice(wr) if wr else None
+            if n and rng.random() < 0.5:
+                name = "inc%d" % self.nclos
+                top["clos"].append((name, "w"))
+                return [("raw", "%s := func() { %s += %d }" % (name, n, self.k()))]
+            name = "get%d" % self.nclos
+            top["clos"].append((name, "r"))
+            return [("raw", "%s := func() int { return %s }" % (name, self.expr(scopes)))]
+        if k == "CALL":
+            name, kind = rng.choice(self.closures(scopes))
+            if kind == "w":
+                return [("raw", "%s()" % name)]
+            return [("yield", "%s() + %d" % (name, self.k()))]
+        if k == "BRK":
+            return [("break",)]
+        if k == "CNT":
+            return [("continue",)]
+        g = rng.choice(["g1", "g2", "g3", "a > b"] + (["%s&1 == 0" % rng.choice(vis)] if vis else []))
+        sub = lambda il=in_loop: self.body(budget, scopes, il, depth + 1) or [("eff", self.k())]
+        if k == "IF":
+            return [("if", g, sub(), None)]
+        if k == "IFE":
+            return [("if", g, sub(), sub())]
+        if k == "BLK":
+            return [("block", sub())]
+        if k == "FOR":
+            self.nloop += 1
+            v = "i%d" % self.nloop
+            inner = scopes + [{"vars": [v], "clos": [], "ro": [v]}]
+            return [("for", ("decl", v, "0"), "%s < n" % v, ("inc", v), self.body(budget, inner, True, depth + 1) or [("eff", self.k())])]
+        if k == "FORSH":
+            # loop variable shadows x / y
+            n = rng.choice(self.NAMES)
+            inner = scopes + [{"vars": [n], "clos": [], "ro": [n]}]
+            return [("for", ("decl", n, "0"), "%s < n" % n, ("inc", n), self.body(budget, inner, True, depth + 1) or [("eff", self.k())])]
+        if k == "WHILE":
+            self.nloop += 1
+            v = "w%d" % self.nloop
+            top["vars"].append(v)
+            top.setdefault("ro", []).append(v)
+            return [("decl", v, "0"), ("for", None, "%s < n" % v, None, [("inc", v)] + (self.body(budget, scopes, True, depth + 1) or [("eff", self.k())]))]
+        if k == "SWINIT":
+            n = rng.choice(self.NAMES)
+            init_e = "(%s) & 3" % self.expr(scopes)
+            inner = scopes + [{"vars": [n], "clos": []}]
+            cases = [(str(i), self.body(budget, inner, in_loop, depth + 1) or [("eff", self.k())]) for i in range(rng.randint(1, 2))]
+            default = (self.body(budget, inner, in_loop, depth + 1) or [("eff", self.k())]) if rng.random() < 0.7 else None
+            # break inside switch bodies would target the switch: strip loop jumps for simplicity
+            cases = [(v, strip_jumps(b)) for v, b in cases]
+            default = strip_jumps(default) if default is not None else None
+            return [("switch", ("decl", n, init_e), n, cases, default)]
+        if k == "TSW":
+            e = self.expr(scopes)
+            self.nclos += 1
+            tv = "tv%d" % self.nclos
+            n = "t%d" % self.nclos  # fresh name: the symbol is also declared (as any) in the default clause
+            b1 = strip_jumps(self.body(budget, scopes, in_loop, depth + 1, pre=[n]) or [("eff", self.k())])
+            b2 = strip_jumps(self.body(budget, scopes, in_loop, depth + 1) or [("eff", self.k())])
+            return [("raw", "var %s any = %s\nif %s {\n\t%s = \"s\"\n}" % (tv, e, g, tv)),
+                    ("tswitch", n, tv, [("int", b1)], b2)]
+        if k == "RANGE":
+            kn, vn = rng.choice([("x", "y"), ("y", "x"), ("_", "x"), ("x", None)])
+            names = [t for t in (kn, vn) if t and t != "_"]
+            inner = scopes + [{"vars": names, "clos": []}]
+            coll = "[]int{%s, %s}" % (self.expr(scopes), self.expr(scopes))
+            return [("range", kn, vn, ":=", coll, [("effv", 6, t) for t in names] + (self.body(budget, inner, True, depth + 1) or [("eff", self.k())]))]
+        return [("eff", self.k())]
+
+
+def strip_jumps(body):
+    out = []
+    for s in body:
+        k = s[0]
+        if k in ("break", "continue"):
+            out.append(("eff", 998))
+        elif k == "if":
+            out.append(("if", s[1], strip_jumps(s[2]), strip_jumps(s[3]) if s[3] is not None else None))
+        elif k == "block":
+            out.append(("block", strip_jumps(s[1])))
+        elif k == "switch":
+            out.append(("switch", s[1], s[2], [(v, strip_jumps(b)) for v, b in s[3]], strip_jumps(s[4]) if s[4] is not None else None))
+        elif k == "tswitch":
+            out.append(("tswitch", s[1], s[2], [(v, strip_jumps(b)) for v, b in s[3]], strip_jumps(s[4]) if s[4] is not None else None))
+        else:
+            out.append(s)
+    return out
